@@ -2,6 +2,7 @@
 // print per-op results (values / error kinds) and the final state snapshot (cfg(rivia_verif) hook).
 use crate::{hex, unhex, unhex_s};
 use rivia::prelude::*;
+use std::io::Write;
 use std::path::PathBuf;
 
 fn hp(p: &std::path::Path) -> String {
@@ -151,7 +152,61 @@ pub fn run_hist(mode: &str, ops: &[&str]) -> String {
         _ => unreachable!(),
     };
     let mut out: Vec<String> = vec![];
-    for op in ops {
+    let mut handles: Vec<Option<Box<dyn Write>>> = vec![];
+    let two = mode.ends_with('2');
+    let mode = mode.trim_end_matches('2');
+    for (i, op) in ops.iter().enumerate() {
+        if two && i + 1 == ops.len() {
+            // the state the last call starts from
+            out.push(format!("#pre{}", snapshot(memfs)));
+        }
+        // explicit write / append handles (mode "h")
+        let hf: Vec<&str> = op.split(':').collect();
+        if mode == "h" && ["open_w", "open_a", "hwrite", "hflush", "hdrop"].contains(&hf[0]) {
+            let r = std::panic::catch_unwind(std::panic::AssertUnwindSafe(|| match hf[0] {
+                "open_w" | "open_a" => {
+                    let p = unhex_s(hf[1]);
+                    let h = if hf[0] == "open_w" { memfs.write(&p) } else { memfs.append(&p) };
+                    match h {
+                        Ok(h) => {
+                            handles.push(Some(h));
+                            format!("n{}", handles.len() - 1)
+                        },
+                        Err(e) => ek(&e),
+                    }
+                },
+                "hwrite" => match handles.get_mut(hf[1].parse::<usize>().unwrap()) {
+                    Some(Some(h)) => {
+                        h.write_all(&unhex(hf[2])).unwrap();
+                        "ok".to_string()
+                    },
+                    _ => "E:Other".to_string(),
+                },
+                "hflush" => match handles.get_mut(hf[1].parse::<usize>().unwrap()) {
+                    Some(Some(h)) => match h.flush() {
+                        Ok(_) => "ok".to_string(),
+                        Err(e) if e.kind() == std::io::ErrorKind::NotFound => "E:DoesNotExist".to_string(),
+                        Err(e) => format!("E:Io{:?}", e.kind()),
+                    },
+                    _ => "E:Other".to_string(),
+                },
+                _ => match handles.get_mut(hf[1].parse::<usize>().unwrap()) {
+                    Some(x) if x.is_some() => {
+                        *x = None; // drops the handle: a final write-back whose error is swallowed
+                        "ok".to_string()
+                    },
+                    _ => "E:Other".to_string(),
+                },
+            }));
+            match r {
+                Ok(s) => out.push(s),
+                Err(_) => {
+                    out.push("PANIC".into());
+                    return out.join("\t");
+                },
+            }
+            continue;
+        }
         let r = std::panic::catch_unwind(std::panic::AssertUnwindSafe(|| {
             if mode == "vm" {
                 apply(&wrapped, op)
